@@ -38,8 +38,8 @@ namespace pbt
         case '\r': o += "\\r"; break;
         case '\t': o += "\\t"; break;
         default:
-          if (c < 0x20)
-          {
+          if (c < 0x20 || c >= 0x7f)
+          { // control and non-ASCII bytes: the byte value as a code point (keeps the JSON valid whatever the input was)
             char b[8];
             snprintf(b, sizeof b, "\\u%04x", c);
             o += b;
